@@ -3,12 +3,20 @@
 From Coq Require Import Strings.String Strings.Byte.
 From Coq Require Import List NArith.
 From Goit Require Import Bytes Obj Regex GoRegex Refs World Repo ObjFacts RegexFacts BranchFacts.
+From Goit Require Import Bridge.
 Import ListNotations.
 
 (* the abstract state is (w_head w, w_refs w); [frame] says index, objects,
    configs and work tree are untouched.  In each theorem: if the abstract
    operation is defined the command succeeds and lands exactly on its result;
    otherwise it is refused with an EMPTY trace and the world is unchanged. *)
+
+(* T0 (tie to the source): every regexp literal of the current Go source denotes
+   the same language, with the same anchoring, as the pattern of the model — proved
+   by running the verified equivalence checker on SrcRegex.v, which is regenerated
+   from /repo on every run (see Bridge.v) *)
+Theorem C10_source_patterns_are_the_models : source_patterns_agree.
+Proof. exact source_patterns. Qed.
 
 (* creating a branch adds exactly one branch at the current HEAD commit;
    duplicate or unsafe names are refused *)
@@ -123,3 +131,4 @@ Print Assumptions C10_refs_sorted.
 Print Assumptions C10_logs_cover_branches.
 Print Assumptions C10_head_file_roundtrip.
 Print Assumptions C10_branch_file_roundtrip.
+Print Assumptions C10_source_patterns_are_the_models.
